@@ -130,13 +130,24 @@ func installHooks(timeHook, strHook, fldHook bool) {
 	}
 }
 
+// fillerAlphabet deliberately contains characters every encoder path treats
+// differently: control characters that become \u00XX, the short escapes, quote,
+// backslash, DEL, multi-byte runes and an invalid UTF-8 byte.
+var fillerAlphabet = []string{"a", "b", "c", "d", "e", "f", "g", "h", "i", "j", "k", "l", "m", "n", "o", "p", "q", "r", "s", "t", "u", "v", "w", "x", "y", "z",
+	"A", "B", "C", "Z", "0", "1", "2", "9", " ", "=", "|", "\x01", "\x02", "\x07", "\x1b", "\x1f", "\t", "\n", "\r", "\"", "\\", "\x7f", "é", "世", "\xff"}
+
 func filler(task, seq, n int) string {
 	var b strings.Builder
 	b.Grow(n)
 	x := uint32(task*7919 + seq*104729 + 17)
-	for i := 0; i < n; i++ {
+	plain := (task+seq)%3 != 0 // two thirds of the payloads stay alphanumeric
+	for b.Len() < n {
 		x = x*1664525 + 1013904223
-		b.WriteByte("abcdefghijklmnopqrstuvwxyzABCDEFGHIJKLMNOPQRSTUVWXYZ0123456789"[(x>>16)%62])
+		if plain {
+			b.WriteByte("abcdefghijklmnopqrstuvwxyzABCDEFGHIJKLMNOPQRSTUVWXYZ0123456789"[(x>>16)%62])
+		} else {
+			b.WriteString(fillerAlphabet[int(x>>16)%len(fillerAlphabet)])
+		}
 	}
 	return b.String()
 }
